@@ -158,6 +158,9 @@ pub fn lanes_for(prop: &str, tier: &str, seed: u64) -> Vec<Scenario> {
             v.extend(gen_cli::lane_pairing(seed));
             v.extend(gen_cli::lane_cli_report_bytes(seed));
             v.extend(gen_cli::lane_closed_stderr(seed));
+            // a read round filled by both streams together, a pause, a little more: the verdict
+            // is about all of it
+            v.extend(gen_cli::lane_flood(seed).into_iter().filter(|s| s.check.iter().any(|c| c == "C05")));
             v.extend(gen_cli::lane_random(Tier::Lib, seed, n_rand_lib, "C05"));
             v.extend(gen_cli::lane_random(Tier::Cli, seed, n_rand_cli, "C05"));
         }
